@@ -1,5 +1,6 @@
 import ScrapliModel.Bytes
 import ScrapliModel.Timeout
+import ScrapliModel.TimeoutModifier
 open Scrapli Scrapli.Timeout
 
 /-
@@ -8,6 +9,10 @@ open Scrapli Scrapli.Timeout
     msg <function name>                                                                          -> hex(message)
     run <mech> <noTerminate 0|1> <closeWakes 0|1> <handler u<n>|s<name>> <timer -|n> <closed 0|1> <now> <prog…>
         -> fin=<n|inf> out=<ret|error|cancelled|timeout:hex> closed=<0|1> handler=<u<n>|s:hex> timer=<-|n> acts=<name:start:stop;…|.>
+    mod <sync|async> <driver-level timeout_ops ticks> <keyword ticks|->   (timeout_modifier, Scrapli.Timeout.modifier)
+        -> inforce=<n> after=<n>     the value the wrapped operation finds / the driver-level value afterwards
+    modop <sync|async> <drv ticks> <kw ticks|-> <mech> <noTerminate 0|1> <closeWakes 0|1> <channel op name> <body prog…>
+        -> after=<n> + the fields of `run`   (Scrapli.Timeout.modifiedOp: the modifier over the decorated channel operation)
   prog in prefix form:  ret | raise | hang | work <d> P | call <t> <name> P P | spawn P P
 -/
 
@@ -90,6 +95,23 @@ def handleLine (line : String) : String :=
         | some (q, o) => s!"fin={q.now} out={outStr o} closed={if q.closed then 1 else 0} handler={handlerStr q.handler} timer={optStr q.timer "-"} acts=."
         | none => "fin=inf out=error closed=0 handler=- timer=- acts=."
     | _, _, _, _, _ => "bad-op"
+  | "modop" :: v :: drv :: kw :: m :: nt :: cw :: name :: prog =>
+    let sh : Option ModShape := if v == "sync" then some modSync else if v == "async" then some modAsync else none
+    let kw : Option (Option Nat) := if kw == "-" then some none else kw.toNat?.map some
+    match sh, drv.toNat?, kw, mechOf m, bit nt, bit cw, parseProg prog with
+    | some sh, some drv, some kw, some m, some nt, some cw, some (body, []) =>
+      let (after, r) := modifiedOp sh { noTerminate := nt, closeWakes := cw } m name body {} drv kw
+      s!"after={after} fin={optStr r.fin "inf"} out={outStr r.out} closed={if r.closed then 1 else 0} handler={handlerStr r.handler} timer={optStr r.timer "-"} acts={actsStr r.acts}"
+    | _, _, _, _, _, _, _ => "bad-op"
+  | ["mod", v, drv, kw] =>
+    let sh : Option ModShape := if v == "sync" then some modSync else if v == "async" then some modAsync else none
+    let kw : Option (Option Nat) := if kw == "-" then some none else kw.toNat?.map some
+    match sh, drv.toNat?, kw with
+    | some sh, some drv, some kw =>
+      -- the wrapped operation reports the value it finds and leaves it alone; it returns normally
+      let r := modifier (fun (_ : Nat) => true) sh kw (fun t => (t, t)) 0 drv
+      s!"inforce={r.2} after={r.1}"
+    | _, _, _ => "bad-op"
   | _ => "bad-op"
 
 partial def loop (h : IO.FS.Stream) : IO Unit := do
